@@ -268,15 +268,15 @@ func TestVX_C16(t *testing.T) {
 	}
 	nUn, nBin := 14, 5
 	if vx.Thorough() {
-		nUn, nBin = 22, 7
+		nUn, nBin = 22, 9
 	}
 	for _, field := range []string{"p", "n"} {
 		m := modulus(field)
 		// residues
 		build := func(n int) [][]byte {
 			al := limbAlphabet(n)
-			if n < 8 { // binary sub-alphabet: the carry-critical extremes
-				al = []uint64{0, 1, 0xffffffff, 0xffffffff00000000, 0xffffffffffffffff, 1 << 63, 0xfffffffeffffffff}[:n]
+			if n < 10 { // binary sub-alphabet: the carry-critical extremes
+				al = []uint64{0, 1, 0xffffffff, 0xffffffff00000000, 0xffffffffffffffff, 1 << 63, 0xfffffffeffffffff, 2, 0xfffffffffffffffe}[:n]
 			}
 			var out [][]byte
 			for _, a := range al {
